@@ -202,4 +202,46 @@ theorem nonoverlap_not_reverse_invariant :
 example : rowSum (countMat (windows [some 0, none, some 1, some 0, some 1] 1 (stepOf 1 false))) 2 0 ≠ 0 := by
   decide +kernel
 
+/-! ### sparse output (large cell counts)
+
+The driver's sparse answer lists the entries at the positions touched by a counted window.  Nothing is lost:
+every non-zero entry of the transition matrix is listed with its value, and every listed value is the entry. -/
+
+theorem countMat_eq_zero_of_not_mem (ws : List (Nat × Nat)) (i j : Nat) (h : (i, j) ∉ support ws) :
+    countMat ws i j = 0 := by
+  rw [countMat_eq]
+  have h1 : (i, j) ∉ ws := fun hm => h (by
+    unfold support; exact List.mem_flatMap.mpr ⟨(i, j), hm, by simp⟩)
+  have h2 : (j, i) ∉ ws := fun hm => h (by
+    unfold support; exact List.mem_flatMap.mpr ⟨(j, i), hm, by simp⟩)
+  simp [cnt, List.count_eq_zero_of_not_mem h1, List.count_eq_zero_of_not_mem h2]
+
+/-- **Sparse output is complete**: a non-zero entry `(i, j)` inside the `n × n` matrix is listed, with its value. -/
+theorem sparse_complete (xs : List (Option Nat)) (n τ i j : Nat) (noncorr : Bool) (hi : i < n) (hj : j < n)
+    (hne : transition xs n τ noncorr i j ≠ 0) :
+    (i, j, transition xs n τ noncorr i j) ∈ transitionSparse xs n τ noncorr := by
+  unfold transitionSparse
+  simp only [List.mem_map, List.mem_filter]
+  refine ⟨(i, j), ⟨?_, by simp [hi, hj]⟩, rfl⟩
+  by_contra hmem
+  apply hne
+  unfold transition tEntry
+  rw [countMat_eq_zero_of_not_mem _ _ _ hmem]
+  simp
+
+/-- **Sparse output is sound**: every listed triple is an entry of the transition matrix inside the `n × n` block. -/
+theorem sparse_sound (xs : List (Option Nat)) (n τ : Nat) (noncorr : Bool) (e : Nat × Nat × Rat)
+    (he : e ∈ transitionSparse xs n τ noncorr) :
+    e.1 < n ∧ e.2.1 < n ∧ e.2.2 = transition xs n τ noncorr e.1 e.2.1 := by
+  unfold transitionSparse at he
+  simp only [List.mem_map, List.mem_filter, Bool.and_eq_true, decide_eq_true_eq] at he
+  obtain ⟨p, ⟨_, hp1, hp2⟩, rfl⟩ := he
+  exact ⟨hp1, hp2, rfl⟩
+
+/-- The dense and the sparse driver outputs describe the same matrix (dense entry = model entry). -/
+theorem dense_entry (xs : List (Option Nat)) (n τ i j : Nat) (noncorr : Bool) (hi : i < n) (hj : j < n) :
+    ((transitionDense xs n τ noncorr).getD i []).getD j 0 = transition xs n τ noncorr i j := by
+  unfold transitionDense transition
+  simp [List.getD_eq_getElem?_getD, hi, hj]
+
 end Molgri.C12
